@@ -512,11 +512,13 @@ fn gen_tenant(rng: &mut Rng, keys: &mut Vec<String>) -> Tenant {
     let mut cfg = if rng.chance(1, 2) { GenCfg::full(budget) } else { GenCfg::core(budget) };
     // casts to text / symbol print jump-table indices and consult the shared symbol-name table, and
     // range → list casts size the list from addresses: their results legitimately (or, for the last,
-    // through an unrelated defect) depend on what else lives in the object, so they are kept out
+    // through an unrelated defect) depend on what else lives in the object, so they are kept out — except
+    // for one sound form (`render_own`): a symbol literal of the tenant's own source rendered as text
     cfg.w_cast = 0;
     *keys = cfg.keys.clone();
     let mut g = Gen::new(rng, cfg);
     g.empty_nested = true;
+    g.render_own = true;
     if g.rng.chance(1, 6) {
         // a tenant that is a reapply loop at the top level: its jump back must land on its own entry
         let (p, input) = g.toplevel_loop(budget.max(8));
